@@ -12,6 +12,11 @@ tail -3 /tmp/confirm_${ID}_ninja.log
 if [ $BUILD -ne 0 ]; then echo "CONFIRM_RESULT build_failed"; git checkout -q -- .; exit 1; fi
 ctest --test-dir $WT/_build -j8 --timeout 900 > /tmp/confirm_${ID}_ctest.log 2>&1; CT=$?
 tail -8 /tmp/confirm_${ID}_ctest.log
+if [ $CT -ne 0 ]; then
+  # the machine is shared with other jobs: tests that failed in the parallel run are repeated one at a time
+  ctest --test-dir $WT/_build --rerun-failed --timeout 1800 > /tmp/confirm_${ID}_ctest_rerun.log 2>&1; CT=$?
+  echo "RERUN OF FAILED TESTS (serial): exit $CT"; tail -6 /tmp/confirm_${ID}_ctest_rerun.log
+fi
 ( cd $SRC && timeout 1200 bash ./run.sh $WT ) > /tmp/confirm_${ID}_demo_with.log 2>&1; DW=$?
 tail -5 /tmp/confirm_${ID}_demo_with.log
 ( cd $SRC && timeout 1200 bash ./run.sh /repo ) > /tmp/confirm_${ID}_demo_without.log 2>&1; DO=$?
